@@ -337,6 +337,28 @@ impl Scope {
         Ok(Arc::new(nctx))
     }
 }
+impl Scope {
+    // Members of arrays and tuples are evaluated when they are selected, which may be after
+    // the value has left this scope: evaluate them now, while the bindings can be resolved.
+    fn resolve_members(value: Value, ctx: ScriptContextRef) -> Result<Value, Error> {
+        let resolve = |members: &Vec<Value>| -> Result<Arc<Vec<Value>>, Error> {
+            members
+                .iter()
+                .map(|v| {
+                    v.value_of(ctx.clone())
+                        .and_then(|v| Self::resolve_members(v, ctx.clone()))
+                })
+                .collect::<Result<Vec<_>, _>>()
+                .map(Arc::new)
+        };
+        match &value {
+            Value::Array(a) => Ok(Value::Array(resolve(a)?)),
+            Value::Tuple(t) => Ok(Value::Tuple(resolve(t)?)),
+            _ => Ok(value),
+        }
+    }
+}
+
 impl Callable for Scope {
     fn signature(&self, ctx: ScriptContextRef, args: &[Value]) -> Result<Type, Error> {
         let ctx = Self::make_context(args[0].as_vec(), ctx)?;
@@ -345,7 +367,8 @@ impl Callable for Scope {
     }
     fn call(&self, ctx: ScriptContextRef, args: &[Value]) -> Result<Value, Error> {
         let ctx = Self::make_context(args[0].as_vec(), ctx)?;
-        args[1].value_of(ctx)
+        let ret = args[1].value_of(ctx.clone())?;
+        Self::resolve_members(ret, ctx)
     }
 
     fn unresovled_ids<'s: 'o, 'o>(&self, args: &'s [Value], ids: &mut HashSet<&'o Value>) {
